@@ -158,7 +158,8 @@ def valueText (s : SchemaD) : Nat → J → Ty → Option String
               match v with
               | .bool b => some (if b then "true" else "false")
               | .str x => some (if isIntText x then x else jsonDumps x)
-              | .num k => some (toString k)
+              | .num k => some (toString k)                 -- FloatValue(str(int))
+              | .obj [("$float", .str r)] => some r           -- FloatValue(str(float))
               | _ => none
             | .input =>
               match v with
